@@ -80,7 +80,8 @@ def render_ty(t, lifetimes=None, in_ret=False):
         lt = ""
         if lifetimes is not None:
             lt = lifetimes.pop(0) if lifetimes else ""
-        return "&" + lt + "dyn Fn() -> " + render_ty(a[0], lifetimes)
+        # (the closure's result is a return position: nothing to borrow from, so `'static`)
+        return "&" + lt + "dyn Fn() -> " + render_ty(a[0], None, True)
     raise ValueError(k)
 
 
